@@ -115,7 +115,13 @@ fn show_key(k: &KeyEvent) -> String {
 
 struct Recorder {
     obs: Arc<Mutex<Vec<String>>>,
+    sync: Arc<Mutex<Vec<String>>>,
 }
+
+/// C02 (target `render`): when set, every `Event::Any` callback also records `line/pos/hint` and writes
+/// `SYNC_MARK` to the terminal, so that the output stream can be cut exactly where the callback ran.
+pub static RENDER_SYNC: std::sync::atomic::AtomicBool = std::sync::atomic::AtomicBool::new(false);
+pub const SYNC_MARK: &[u8] = b"\x1b[?4242h";
 
 impl ConditionalEventHandler for Recorder {
     fn handle(&self, evt: &Event, n: RepeatCount, positive: bool, ctx: &EventContext) -> Option<Cmd> {
@@ -130,6 +136,15 @@ impl ConditionalEventHandler for Recorder {
             Event::KeySeq(ks) => ks.iter().map(show_key).collect::<Vec<_>>().join("+"),
             _ => "?".to_string(),
         };
+        if RENDER_SYNC.load(std::sync::atomic::Ordering::Relaxed) {
+            self.sync.lock().unwrap().push(format!(
+                "{}/{}/{}",
+                enc_text(ctx.line()),
+                ctx.pos(),
+                ctx.hint_text().map_or("n".to_string(), enc_text)
+            ));
+            unsafe { libc::write(1, SYNC_MARK.as_ptr() as *const libc::c_void, SYNC_MARK.len()) };
+        }
         self.obs.lock().unwrap().push(format!(
             "{}/{}/{}/{}/{}/{}/{}",
             enc_text(ctx.line()),
@@ -245,6 +260,7 @@ pub struct RunResult {
     pub snapshots: Vec<usize>, // output length after each key token (one-key-at-a-time mode)
     pub validator_calls: Vec<String>,
     pub printer_msgs: usize,
+    pub sync_states: Vec<String>, // C02: `line/pos/hint` per callback (only with RENDER_SYNC)
 }
 
 pub fn outcome_of(r: &std::thread::Result<rustyline::Result<String>>) -> String {
@@ -282,6 +298,8 @@ pub fn run(req: &Req, prompt: &str, rows: u16) -> Option<RunResult> {
     let (tid_tx, tid_rx) = mpsc::channel::<i32>();
     let (res_tx, res_rx) = mpsc::channel::<(String, Vec<String>)>();
     let obs2 = obs.clone();
+    let sync: Arc<Mutex<Vec<String>>> = Arc::new(Mutex::new(vec![]));
+    let sync2 = sync.clone();
     let vi = req.vi;
     let flags = req.flags.clone();
     let hist = req.history.clone();
@@ -304,7 +322,7 @@ pub fn run(req: &Req, prompt: &str, rows: u16) -> Option<RunResult> {
         }
         let mut ed: Editor<ScriptHelper, DefaultHistory> = Editor::with_history(cfg, history).unwrap();
         ed.set_helper(helper);
-        ed.bind_sequence(Event::Any, EventHandler::Conditional(Box::new(Recorder { obs: obs2 })));
+        ed.bind_sequence(Event::Any, EventHandler::Conditional(Box::new(Recorder { obs: obs2, sync: sync2 })));
         for (seq, cmd) in binds {
             ed.bind_sequence(Event::KeySeq(seq), EventHandler::Simple(cmd));
         }
@@ -406,6 +424,7 @@ pub fn run(req: &Req, prompt: &str, rows: u16) -> Option<RunResult> {
     };
     let callbacks = obs.lock().unwrap().clone();
     let validator_calls = calls.lock().unwrap().clone();
+    let sync_states = sync.lock().unwrap().clone();
     let restored = hung_up || before == after;
     pty.close();
     Some(RunResult {
@@ -418,6 +437,7 @@ pub fn run(req: &Req, prompt: &str, rows: u16) -> Option<RunResult> {
         snapshots,
         validator_calls,
         printer_msgs: 0,
+        sync_states,
     })
 }
 
@@ -512,9 +532,9 @@ pub fn hex(b: &[u8]) -> String {
     b.iter().map(|x| format!("{:02x}", x)).collect()
 }
 
-const TEXT: &[char] = &['a', 'b', 'Z', '0', '_', ',', '.', '(', ')', ' ', 'é', 'ß', '漢', '\u{0301}'];
+pub const TEXT: &[char] = &['a', 'b', 'Z', '0', '_', ',', '.', '(', ')', ' ', 'é', 'ß', '漢', '\u{0301}'];
 
-fn tok_char(c: char) -> String {
+pub fn tok_char(c: char) -> String {
     let mut b = [0u8; 4];
     hex(c.encode_utf8(&mut b).as_bytes())
 }
@@ -727,6 +747,90 @@ pub enum Profile {
     History,   // C07: history navigation mixed with edits, multi-line entries and in-progress lines
     Search,    // C08: incremental search keys, direction changes, backspaces, aborts, terminators
     Complete,  // C14: scripted completer, Tab / Shift-Tab runs, aborts, terminators, undo probe
+    Kill,      // C06: kill commands with counts and negative arguments, yank / yank-pop probes
+    Undo,      // C05: editing commands with the undo probe at arbitrary points
+}
+
+fn kill_keys(rng: &mut Rng, vi: bool, insert_mode: &mut bool, out: &mut Vec<String>) {
+    if vi {
+        if *insert_mode {
+            out.push(format!("1b{:02x}", *rng.pick(b"hb0")));
+            *insert_mode = false;
+            return;
+        }
+        match rng.below(10) {
+            0..=4 => {
+                if rng.chance(1, 4) {
+                    out.push(format!("{:02x}", b'1' + rng.below(3) as u8));
+                }
+                out.push("64".to_string());
+                if rng.chance(1, 5) {
+                    out.push("64".to_string());
+                } else {
+                    vi_motion(rng, out);
+                }
+            }
+            5 => out.push("44".to_string()),
+            6 | 7 => out.push(rng.pick(&["50", "70"]).to_string()),
+            8 => out.push(format!("{:02x}", *rng.pick(b"xXhlwb0$"))),
+            _ => out.push("50".to_string()),
+        }
+        return;
+    }
+    match rng.below(100) {
+        0..=39 => {
+            // a run of kill commands
+            let k = 1 + rng.below(4);
+            for _ in 0..k {
+                if rng.chance(1, 5) {
+                    if rng.chance(1, 2) {
+                        out.push("1b2d".to_string());
+                    }
+                    out.push(format!("1b{:02x}", b'1' + rng.below(3) as u8));
+                }
+                out.push(rng.pick(&["0b", "15", "17", "1b64", "1b7f", "0b", "17"]).to_string());
+            }
+            if rng.chance(3, 4) {
+                out.push("19".to_string());
+                let pops = rng.below(4);
+                for _ in 0..pops {
+                    out.push("1b79".to_string());
+                }
+            }
+        }
+        40..=49 => out.push(rng.pick(&["04", "7f", "08", "1b5b337e"]).to_string()),
+        50..=59 => out.push("19".to_string()),
+        60..=64 => out.push("1b79".to_string()),
+        65..=79 => out.push(rng.pick(&["01", "05", "02", "06", "1b62", "1b66"]).to_string()),
+        80..=82 => out.push("0c".to_string()),
+        _ => out.push(tok_char(*rng.pick(TEXT))),
+    }
+}
+
+fn undo_keys(rng: &mut Rng, out: &mut Vec<String>) {
+    match rng.below(100) {
+        0..=29 => out.push(tok_char(*rng.pick(&['a', 'b', 'Z', '0', ' ', ',', 'é', '漢']))),
+        30..=44 => out.push("1f".to_string()),
+        45..=54 => out.push(rng.pick(&["7f", "04", "08"]).to_string()),
+        55..=64 => out.push(rng.pick(&["17", "0b", "15", "1b64", "1b7f"]).to_string()),
+        65..=70 => out.push("19".to_string()),
+        71..=76 => out.push(rng.pick(&["14", "1b74", "1b75", "1b6c", "1b63"]).to_string()),
+        77..=86 => out.push(rng.pick(&["01", "05", "02", "06", "1b62", "1b66"]).to_string()),
+        87..=89 => {
+            out.push("16".to_string());
+            out.push(rng.pick(&["61", "0a", "20"]).to_string());
+        }
+        90..=92 => out.push("1b5b3230307e6162201b5b3230317e".to_string()), // bracketed paste of "ab "
+        93..=95 => {
+            out.push("12".to_string());
+            out.push(tok_char(*rng.pick(&['a', 'b'])));
+            out.push("07".to_string());
+        }
+        _ => {
+            out.push("1b32".to_string());
+            out.push("1f".to_string());
+        }
+    }
 }
 
 fn history_key(rng: &mut Rng, vi: bool, insert_mode: &mut bool, out: &mut Vec<String>) {
@@ -886,7 +990,11 @@ pub fn gen_profile(ctx: &GenCtx, tag: &str, profile: Profile, sink: &mut dyn FnM
         (_, false) => 2_500,
     };
     for _ in 0..n {
-        let vi = rng.chance(2, 5);
+        let vi = match profile {
+            Profile::Undo => rng.chance(1, 6),
+            Profile::Kill => rng.chance(1, 4),
+            _ => rng.chance(2, 5),
+        };
         let mut flags = String::new();
         if rng.chance(1, 8) {
             flags.push('t');
@@ -900,7 +1008,7 @@ pub fn gen_profile(ctx: &GenCtx, tag: &str, profile: Profile, sink: &mut dyn FnM
             Profile::General => 3,
             Profile::Validator | Profile::Complete => 1,
             Profile::Malformed => 2,
-            Profile::History | Profile::Search => 6,
+            Profile::History | Profile::Search | Profile::Kill | Profile::Undo => 6,
         };
         if rng.chance(1, hprob) {
             helper = random_helper(&mut rng, &mut flags, profile);
@@ -956,6 +1064,14 @@ pub fn gen_profile(ctx: &GenCtx, tag: &str, profile: Profile, sink: &mut dyn FnM
             }
             if profile == Profile::Complete && (!vi || insert_mode) && rng.chance(1, 2) {
                 complete_keys(&mut rng, &mut toks);
+                continue;
+            }
+            if profile == Profile::Kill && rng.chance(3, 4) {
+                kill_keys(&mut rng, vi, &mut insert_mode, &mut toks);
+                continue;
+            }
+            if profile == Profile::Undo && !vi && rng.chance(4, 5) {
+                undo_keys(&mut rng, &mut toks);
                 continue;
             }
             if vi {
